@@ -107,6 +107,14 @@ def gen_case(r, grid, n, mode=None, unit=None):
     err_x = None
     if r.random() < 0.6:
         err_x = stamps if r.random() < 0.5 else [float(3 * k + 1) for k in range(n)]
+        how = r.random()
+        if how < 0.2:
+            err_x = list(reversed(err_x))                    # "the given x array in order": descending,
+        elif how < 0.35:
+            err_x = list(err_x)
+            r.shuffle(err_x)                                  # permuted,
+        elif how < 0.45 and n > 3:
+            err_x = [float(k % 3) for k in range(n)]          # wrapping (laps) with repeated values
     if r.random() < 0.05 and n > 2:
         pos2 = pos2[:-1]
     step = r.choice([1, 2, 2, 3])
